@@ -14,7 +14,9 @@
     reset                                                    → ok        (drops nodes, handlers and stacks)
 
   the handler table as a history of registrations on the instance (Model/ProcedureHistory.lean):
-    h.on <actionhex> <callback id> <beh>                     → ok        (Middleware.on; the table `exec` sees follows)
+    h.on <actionhex> <callback id> <beh>                     → ok        (Middleware.on; the table `exec` sees follows;
+                                                                          beh also chain | chain0 | chain2: a callback declaring `next`
+                                                                          that runs the rest of the chain once / never / twice)
     h.off <actionhex> <callback id>                          → ok | ValueError
     h.clear                                                  → ok
 
@@ -156,7 +158,12 @@ def step (st : DSt) : List String → DSt × String
     | none => (st, "bad-op")
   | ["reset"] => ({ st with nodes := #[], hs := ⟨fun _ => none, none⟩, stacks := [], em := [] }, "ok")
   | ["h.on", action, id, beh] =>
-    match Str.unhex action, id.toNat?, mkHandler st.nodes beh with
+    let cb : Option (CB String) :=
+      if beh == "chain" then some (.chained fun n ev nxt => nxt.bind fun r => .ret (sig n ev ++ "^" ++ r))
+      else if beh == "chain0" then some (.chained fun n ev _ => .ret (sig n ev ++ "^"))
+      else if beh == "chain2" then some (.chained fun n ev nxt => nxt.bind fun r1 => nxt.bind fun r2 => .ret (sig n ev ++ "^" ++ r1 ++ "^" ++ r2))
+      else (mkHandler st.nodes beh).map .plain
+    match Str.unhex action, id.toNat?, cb with
     | some a, some i, some h =>
       let em := st.em.on a i h
       ({ st with em := em, hs := em.table }, "ok")
